@@ -2042,6 +2042,52 @@ func genTable(repo, out string) {
 			d = fmt.Sprintf("/-- UNTRANSLATABLE: %s -/\ndef %s : Unit := ()\n", strings.ReplaceAll(err.Error(), "-/", "- /"), spec.leanName)
 		}
 		sb.WriteString(d + "\n")
+		// table.Build, second part: the index entries, the offsets and the data region of the file
+		ix := transSpec{
+			leanName: "buildIndex",
+			binders:  "{α κ β : Type} (encData : List α → List β) (keyOf : α → κ) (dflt : α) (dataBlocks : List (List α))",
+			retType:  "Option (List (κ × κ × Nat × Nat) × (Nat × Nat) × List β)",
+			exprMap: map[string]string{"block.Entries[0].Key": "(keyOf (block.headD dflt))", "block.Entries[len(block.Entries)-1].Key": "(keyOf (block.getLastD dflt))",
+				"uint64(len(dataBytes))": "dataBytes.length", "err != nil": "err"},
+			state: []string{"indexBlock.Entries", "indexBlock.DataBlock", "offset", "buf"}, stateLn: []string{"ixEntries", "dataHandle", "offset", "buf"},
+			stateTy:  []string{"List (κ × κ × Nat × Nat)", "(Nat × Nat)", "Nat", "List β"},
+			zero:     map[string]string{"Index": "()", "uint64": "0"},
+			litTuple: true,
+			binds: map[string][][2]string{"block.Encode()": {{"dataBytes", "(encData block)"}, {"err", "false"}},
+				"buf.Write(dataBytes)": {{"buf", "(buf ++ dataBytes)"}, {"err", "false"}}},
+			ret:      func(vals []string, st []string) string { return "some (ixEntries, dataHandle, buf)" },
+			fallOff:  func(st []string) string { return "some (ixEntries, dataHandle, buf)" },
+			panicVal: "none",
+		}
+		d2 := ""
+		err2 := fmt.Errorf("table.Build not found")
+		if fd != nil {
+			var part []ast.Stmt
+			on := false
+			for _, st := range fd.Body.List {
+				g := goStr(st)
+				if g == "var indexBlock Index" {
+					on = true
+				}
+				if on {
+					part = append(part, st)
+				}
+				if strings.HasPrefix(g, "indexBlock.DataBlock = BlockHandle{") {
+					break
+				}
+			}
+			err2 = fmt.Errorf("the index-building statements of table.Build were not found")
+			if len(part) == 4 {
+				t := &translator{spec: ix}
+				tr := t.stmts(part, func() string { return "some (ixEntries, dataHandle, buf)" }, "", "")
+				err2 = t.err
+				d2 = fmt.Sprintf("def %s %s : %s :=\n  let ixEntries : List (κ × κ × Nat × Nat) := []\n  let dataHandle : Nat × Nat := (0, 0)\n  let offset : Nat := 0\n  let buf : List β := []\n  %s\n", ix.leanName, ix.binders, ix.retType, tr)
+			}
+		}
+		if err2 != nil {
+			d2 = fmt.Sprintf("/-- UNTRANSLATABLE: %s -/\ndef %s : Unit := ()\n", strings.ReplaceAll(err2.Error(), "-/", "- /"), ix.leanName)
+		}
+		sb.WriteString(d2 + "\n")
 	}
 	sb.WriteString("end GenTable\n")
 	if err := os.WriteFile(out, []byte(sb.String()), 0644); err != nil {
